@@ -188,3 +188,122 @@ def reduce_conditions(cx):
     cx.invariant(0, lambda st: valid(st, st['$i0'].t, True))
     cx.invariant(1, lambda st: valid(st, st['$i0'].t, False))
     cx.ensures(lambda st, r: z3.BoolVal(True))
+
+
+def _counting(cx, body):
+    """ghost: REM(v, i) = number of assignments to v among body[i:], by its defining equations (a total function on i >= 0)"""
+    VAR0 = z3.Function('assigned_variable_before', REF, REF)      # the variable an assignment object assigns when the pass starts
+    REM = z3.Function('assignments_to_from', REF, I, I)
+    v, i = z3.Const('v', REF), z3.Int('i')
+    n = z3.Length(body.t)
+    cx.axiom(z3.ForAll([v, i], z3.Implies(i >= n, REM(v, i) == 0)),
+             z3.ForAll([v, i], z3.Implies(z3.And(0 <= i, i < n), REM(v, i) == z3.If(VAR0(body.t[i]) == v, 1, 0) + REM(v, i + 1))),
+             z3.ForAll([v, i], REM(v, i) >= 0))
+    return VAR0, REM
+
+
+@contract('program/transformer/multi_assign_transformer.py', 'MultiAssignTransformer._get_count_assign_per_var', ['C02'])
+def count_assign_per_var(cx):
+    """counts[v] = number of assignments to v in the loop body, and exactly the assigned variables are keys"""
+    body = cx.seq('loop_body', DRef('Assignment'))
+    cx.param(self=cx.obj('MultiAssignTransformer'), program=cx.obj('Program', loop_body=body))
+    VAR0, REM = _counting(cx, body)
+    cx.field('variable', lambda ex, st, o: V('ref', VAR0(o.t)))
+    cx.set_hook('empty_kinds', {'counts': V('map', (z3.K(REF, z3.IntVal(0)), z3.K(REF, z3.BoolVal(False))), kk=DRef(), vk=DI, size=None)})
+    v = z3.Const('v', REF)
+
+    def inv(st, i):       # counts[v] + (assignments to v still to come) = all assignments to v
+        arr, dom = st['counts'].t
+        return z3.ForAll([v], z3.And(z3.If(z3.Select(dom, v), z3.Select(arr, v), 0) + REM(v, i) == REM(v, 0),
+                                     z3.Select(dom, v) == (REM(v, 0) - REM(v, i) >= 1)))
+    cx.invariant(0, lambda st: inv(st, st['$i0'].t))
+
+    def post(st, r):
+        arr, dom = r.t
+        return z3.ForAll([v], z3.And(z3.Select(dom, v) == (REM(v, 0) >= 1), z3.Implies(z3.Select(dom, v), z3.Select(arr, v) == REM(v, 0))))
+    cx.ensures(post)
+
+
+@contract('program/transformer/multi_assign_transformer.py', 'MultiAssignTransformer.execute', ['C02', 'C01'])
+def multi_assign_execute(cx):
+    """single-assignment renaming: the k-th of m > k assignments to v writes the alias _v<k> instead of v, the LAST one writes v itself; every
+    assignment is first rewritten (reads and default) with the substitution that maps exactly the variables that have been assigned already
+    AND will be assigned again to their latest alias -- so every read sees the current value and v ends with its final value."""
+    body = cx.seq('loop_body', DRef('Assignment'))
+    prog = cx.obj('Program', loop_body=body)
+    cx.param(self=cx.obj('MultiAssignTransformer'), program=prog)
+    VAR0, REM = _counting(cx, body)
+    ALIAS = z3.Function('alias', REF, I, REF)
+    v, j = z3.Const('v', REF), z3.Int('j'); n = z3.Length(body.t)
+    cx.requires(z3.ForAll([z3.Int('p'), z3.Int('q')], z3.Implies(z3.And(0 <= z3.Int('p'), z3.Int('p') < z3.Int('q'), z3.Int('q') < n), body.t[z3.Int('p')] != body.t[z3.Int('q')])))   # A-alias: distinct assignment objects
+    T = lambda x: REM(x, 0)
+
+    def counts(ex, st, r, a, kw):
+        arr = ex.fresh(z3.ArraySort(REF, I), 'per_var'); dom = ex.fresh(z3.ArraySort(REF, B), 'per_var_dom')
+        st.pc.append(z3.ForAll([v], z3.And(z3.Select(dom, v) == (T(v) >= 1), z3.Implies(z3.Select(dom, v), z3.Select(arr, v) == T(v)))))
+        return V('map', (arr, dom), kk=DRef(), vk=DI, size=None)
+    cx.call('_get_count_assign_per_var', counts, trusted='_get_count_assign_per_var: contract above')
+    cx.call('copy', lambda ex, st, r, a, kw: r)
+    cx.field('variable', lambda ex, st, o: V('ref', VAR0(o.t)))
+    cx.set_hook('empty_kinds', {'substitutions': V('map', (z3.K(REF, z3.Const('nosub', REF)), z3.K(REF, z3.BoolVal(False))), kk=DRef(), vk=DRef(), size=None)})
+    NEWVAR = 'new_variable_of'       # ghost: the variable written by each assignment after the pass (array keyed by assignment object)
+    cx.st.vars['$newvar'] = V('opaque', z3.Const('newvar0', z3.ArraySort(REF, REF)))
+    cx.st.vars['$written'] = V('opaque', z3.K(REF, z3.BoolVal(False)))
+    cx.set_hook('loop_ghosts', ['$newvar', '$written'])
+
+    def expected_map(arr, dom, i):
+        """the substitution in force before statement i"""
+        return z3.ForAll([v], z3.And(z3.Select(dom, v) == z3.And(T(v) - REM(v, i) >= 1, REM(v, i) >= 1),
+                                     z3.Implies(z3.Select(dom, v), z3.Select(arr, v) == ALIAS(v, T(v) - REM(v, i)))))
+
+    def subs(ex, st, r, a, kw):
+        m = a[0]
+        if m.kind != 'map': raise OutOfReach('subs argument')
+        arr, dom = m.t
+        ex.need(st, expected_map(arr, dom, st['$i0'].t), 'reads-see-current-holders@0', 'ensures')
+        return VNone()
+    cx.call('subs', subs, trusted='Assignment.subs(map): simultaneous renaming of the reads and the default of the assignment')
+
+    def fstr(ex, st, x, src):
+        if x.kind == 'ref': return V('text', [('hole', x.t, 'ref', src)])
+        if x.kind == 'int': return V('text', [('hole', x.t, 'int', src)])
+        return None
+    cx.set_hook('fstring_text', fstr)
+
+    def symbols(ex, st, r, a, kw):
+        t = a[0]
+        if t.kind != 'text' or len(t.t) != 3 or t.t[0] != ('lit', '_') or t.t[1][2] != 'ref' or t.t[2][2] != 'int': raise OutOfReach('alias name of another shape')
+        return V('ref', ALIAS(t.t[1][1], t.t[2][1]))
+    cx.call('symbols', symbols, trusted="symbols('_<v><k>'): the alias symbol of (v, k); distinct from every program variable (names starting with '_' are reserved, D26) and injective in (v, k) up to digit concatenation")
+
+    def ref_store(ex, st, o, attr, val):
+        if attr != 'variable': raise OutOfReach('store to ' + attr)
+        st.vars['$newvar'] = V('opaque', z3.Store(st['$newvar'].t, o.t, val.t))
+        st.vars['$written'] = V('opaque', z3.Store(st['$written'].t, o.t, z3.BoolVal(True)))
+    cx.set_hook('ref_store', ref_store)
+
+    def pop(ex, st, r, a, kw):
+        if r.kind != 'map': raise OutOfReach('pop')
+        arr, dom = r.t
+        st.vars['substitutions'] = V('map', (arr, z3.Store(dom, a[0].t, z3.BoolVal(False))), kk=DRef(), vk=DRef(), size=None)
+        return V('opaque')
+    cx.call('pop', pop)
+
+    def target_ok(st, upto):
+        nv, wr = st['$newvar'].t, st['$written'].t
+        o = lambda jj: body.t[jj]
+        return z3.ForAll([j], z3.Implies(z3.And(0 <= j, j < upto),
+                                         z3.If(REM(VAR0(o(j)), j) > 1,
+                                               z3.And(z3.Select(wr, o(j)), z3.Select(nv, o(j)) == ALIAS(VAR0(o(j)), T(VAR0(o(j))) - REM(VAR0(o(j)), j) + 1)),
+                                               z3.Not(z3.Select(wr, o(j))))))
+
+    def inv(st):
+        i = st['$i0'].t
+        carr, cdom = st['assigns_count'].t; sarr, sdom = st['substitutions'].t
+        wr = st['$written'].t
+        return z3.And(z3.ForAll([v], z3.Implies(REM(v, i) >= 1, z3.And(z3.Select(cdom, v), z3.Select(carr, v) == REM(v, i)))),
+                      z3.ForAll([v], T(v) - REM(v, i) >= 0), 0 <= i,
+                      expected_map(sarr, sdom, i), target_ok(st, i),
+                      z3.ForAll([j], z3.Implies(z3.And(i <= j, j < n), z3.Not(z3.Select(wr, body.t[j])))))
+    cx.invariant(0, inv)
+    cx.ensures(lambda st, r: z3.And(target_ok(st, n), r.t == prog.t if r.kind == 'obj' else z3.BoolVal(False)))
